@@ -86,6 +86,16 @@ def generate(ctx):
         cands = [c for c in cands for _ in range(3 if kinds[c] == "optint" else 1)]
         fname = cands[tape.draw(len(cands), "field")]
         fs_, fl = fsp[fname]
+        whole = tape.weighted([(5, None), (1, "-"), (1, "+"), (1, "."), (1, "-."), (1, "")], "whole_field")
+        if whole is not None and not (whole in (".", "-.") and dict(fmt.fields)[fname] != "float") \
+                and not (whole in (".", "") and dict(fmt.fields)[fname] == "optint") \
+                and not (whole == "" and dict(fmt.fields)[fname] == "listint"):
+            # ('.' / empty in an optional column is its missing marker; an empty list column is a list of no numbers)
+            # the whole field is a sign / a decimal point without any digit, or empty
+            bad[fs_:fs_ + fl] = whole.encode()
+            info.update({"field": fname, "offset": fs_, "whole_field": whole})
+            fl = None
+    if klass == "nonnumeric" and fl is not None:
         off = fs_ + tape.draw(fl, "digit")
         # the foreign character: a plain letter, a letter that is "digit + 32" in ASCII ('Q' = '1' + 32), or for a
         # decimal number a second decimal point
